@@ -249,7 +249,7 @@ def deliver(base, mutant, use_guard=True):
                     info["followup"] = "%d datagram endpoints were opened for one request with retries=3" % len(loop.transports)
                 else:
                     honest = vagent.Agent(dict(DB))
-                    loop.reply = lambda req: honest.handle(req)
+                    loop.reply = lambda req: honest.handle_or_timeout(req)
                     loop.scripts = [dict(kind="reply", d=0.1)] * 400
                     loop.transmissions = 0
                     loop.transports.clear()
